@@ -186,7 +186,9 @@ def run(pid, res, tier, seed, known):
     for slack in (1, 0):
         L = buildlib.build(slack=bool(slack))
         hbin = buildlib.build_harness(L, os.path.join(VERIF, "harness", "hprintf.c"), os.path.join(L["dir"], "hprintf"))
-        hl = ["id=%d %s noref=1" % (i, c.hline().replace(" noref=1", "")) for i, c in enumerate(cases)]
+        # dest pre-filled with an old one-character string followed by non-zero garbage (dirt=1): slack code that trusts
+        # "everything behind the old terminator is already zero" is exposed; every third case keeps the uniform fill
+        hl = ["id=%d %s noref=1%s" % (i, c.hline().replace(" noref=1", ""), "" if i % 3 == 0 else " dirt=1") for i, c in enumerate(cases)]
         ci = p11.run_parallel([hbin], hl, workers=8)
         n = 0
         for i, c in enumerate(cases):
